@@ -1,9 +1,12 @@
-(** C04 Split is restriction (extension level). *)
-From Coq Require Import List Bool Arith NArith ZArith QArith.
-From DV Require Import Common.Res Common.Jv Ext.Types Ext.Seq Ext.Model Ext.Spec Ext.ProofsSubset.
+(** C04 Split is restriction (extension level: DcmMetaExtension.get_subset).
+    Model: Ext/Model.v [get_subset]; spec: Ext/Spec.v [den], [valid]; region of the open finding N2 is excluded
+    by the boolean hypothesis [no_trailing1] and shown to fail by [C04_subset_trailing1_refuted]. *)
+From Coq Require Import List Bool Arith NArith ZArith QArith Lia.
+From DV Require Import Common.Res Common.Str Common.Jv Ext.Types Ext.Seq Ext.Model Ext.Spec Ext.ValidFacts Ext.ProofsSubset.
 Import ListNotations.
 Local Open Scope nat_scope.
 
+(** result header: shape = trim (set dim 1 shape), slice dim and affine unchanged *)
 Theorem C04_subset_shape :
   forall (V : Type) (veqb : V -> V -> bool) (vnone : V) (e r : ext V) (dim idx : nat),
     get_subset veqb vnone e dim idx = Ok r ->
@@ -11,9 +14,61 @@ Theorem C04_subset_shape :
                shape (hdr_of r) = trim_ones sh /\ sdim (hdr_of r) = sdim (hdr_of e) /\ aff (hdr_of r) = aff (hdr_of e).
 Proof. exact @subset_shape_law. Qed.
 
+(** the piece's lookup at any remaining coordinate = the parent's lookup with the split axis fixed to [idx];
+    for a non-slice spatial [dim] ([axis_of = AxNone]) the metadata is unchanged.  Canonical or not. *)
+Theorem C04_subset_den :
+  forall (V : Type) (veqb : V -> V -> bool) (vnone : V),
+    (forall a b, reflect (a = b) (veqb a b)) ->
+    forall (e r : ext V) (dim idx : nat),
+      valid e -> no_trailing1 (shape (hdr_of e)) = true ->
+      dim < ndim (hdr_of e) -> idx < nth dim (shape (hdr_of e)) 0 ->
+      get_subset veqb vnone e dim idx = Ok r ->
+      forall k p, in_dims (dims (hdr_of r)) p ->
+        den vnone r k p = den vnone e k (set_axis (axis_of (hdr_of e) dim) idx p).
+Proof. intros V veqb vnone Hspec e r dim idx. exact (subset_den veqb vnone Hspec e r dim idx). Qed.
+
+(** open finding N2: on a trailing-singleton shape the law fails (the model, like the code, raises KeyError) *)
+Definition n2_ext : ext jv :=
+  mk_ext (mk_hdr [2; 2; 2; 1] (Some 2) [[1; 0; 0; 0]; [0; 1; 0; 0]; [0; 0; 1; 0]; [0; 0; 0; 1]]%Q true false)
+         [([97]%N, (TSlices, [JInt 1; JInt 2]))].
+Theorem C04_subset_trailing1_refuted :
+  validb n2_ext = true /\ nondegenerateb n2_ext = true /\ no_trailing1 (shape (hdr_of n2_ext)) = false /\
+  get_subset jv_eqb JNull n2_ext 0 0 = Err EKey.
+Proof. repeat split; vm_compute; reflexivity. Qed.
+
+(** * Non-vacuity *)
+Definition ex_aff : list (list Q) := [[2; 0; 0; -8]; [0; 0; 1 # 2; 3]; [0; -1; 0; 0]; [0; 0; 0; 1]]%Q.
+Definition ex_ext : ext jv :=
+  mk_ext (mk_hdr [2; 2; 2; 3; 2] (Some 1) ex_aff true true)
+    [([116]%N, (TSamples, [JInt 10; JInt 11; JInt 12; JInt 13; JInt 14; JInt 15]));
+     ([118]%N, (VSamples, [JInt 20; JInt 21]));
+     ([115]%N, (TSlices, [JInt 30; JInt 31]));
+     ([119]%N, (VSlices, [JInt 40; JInt 41; JInt 42; JInt 43; JInt 44; JInt 45]));
+     ([103]%N, (GSlices, map JInt [50; 51; 52; 53; 54; 55; 56; 57; 58; 59; 60; 61]%Z));
+     ([99]%N, (GConst, [JStr [97]%N]))].
+
 Example C04_subset_shape_nonvacuous :
-  exists r, get_subset jv_eqb JNull
-              (mk_ext (mk_hdr [2; 2; 3; 2] (Some 2) [[1;0;0;0];[0;1;0;0];[0;0;1;0];[0;0;0;1]]%Q true false)
-                      [([107]%N, (GSlices, [JInt 1; JInt 2; JInt 3; JInt 4; JInt 5; JInt 6]))]) 3 1 = Ok r
-            /\ shape (hdr_of r) = [2; 2; 3].
-Proof. eexists. split; vm_compute; reflexivity. Qed.
+  exists r, get_subset jv_eqb JNull ex_ext 3 1 = Ok r /\ shape (hdr_of r) = [2; 2; 2; 1; 2]
+            /\ exists r2, get_subset jv_eqb JNull ex_ext 4 1 = Ok r2 /\ shape (hdr_of r2) = [2; 2; 2; 3].
+Proof. eexists. split; [vm_compute; reflexivity|]. split; [reflexivity|]. eexists. split; vm_compute; reflexivity. Qed.
+
+(** hypotheses of [C04_subset_den] hold for a concrete 5-D extension with one key per class, for the slice, time
+    and vector axes, and the conclusion is the expected table of values *)
+Example C04_subset_den_nonvacuous :
+  valid ex_ext /\ no_trailing1 (shape (hdr_of ex_ext)) = true /\
+  (exists r, get_subset jv_eqb JNull ex_ext 1 1 = Ok r /\
+     map (fun k => den JNull r k (0, 2, 1)) [[116]%N; [118]%N; [115]%N; [119]%N; [103]%N; [99]%N]
+     = [JInt 15; JInt 21; JInt 31; JInt 45; JInt 61; JStr [97]%N]) /\
+  (exists r, get_subset jv_eqb JNull ex_ext 3 2 = Ok r /\
+     map (fun k => den JNull r k (1, 0, 1)) [[116]%N; [118]%N; [115]%N; [119]%N; [103]%N]
+     = [JInt 15; JInt 21; JInt 31; JInt 45; JInt 61]) /\
+  (exists r, get_subset jv_eqb JNull ex_ext 4 1 = Ok r /\
+     map (fun k => den JNull r k (1, 2, 0)) [[116]%N; [118]%N; [115]%N; [119]%N; [103]%N]
+     = [JInt 15; JInt 21; JInt 31; JInt 45; JInt 61]) /\
+  map (fun k => den JNull ex_ext k (1, 2, 1)) [[116]%N; [118]%N; [115]%N; [119]%N; [103]%N]
+  = [JInt 15; JInt 21; JInt 31; JInt 45; JInt 61].
+Proof.
+  split; [apply validb_valid; vm_compute; reflexivity|].
+  split; [vm_compute; reflexivity|].
+  repeat split; try (eexists; split; vm_compute; reflexivity); vm_compute; reflexivity.
+Qed.
